@@ -63,17 +63,23 @@ func (store *Store) GetBalances(ctx context.Context, query BalanceQuery) (ledger
 				}
 			})
 
-			err := store.db.NewSelect().
-				With(
-					"ins",
-					// Try to insert volumes with 0 values.
-					// This way, if the account has a 0 balance at this point, it will be locked as any other accounts.
-					// It the complete sql transaction fail, the account volumes will not be inserted.
-					store.db.NewInsert().
-						Model(&accountsVolumes).
-						ModelTableExpr(store.GetPrefixedRelationName("accounts_volumes")).
-						On("conflict do nothing"),
-				).
+			// Try to insert volumes with 0 values.
+			// This way, if the account has a 0 balance at this point, it will be locked as any other accounts.
+			// It the complete sql transaction fail, the account volumes will not be inserted.
+			// notes: this must be its own statement. Inside a single statement (CTE), the select shares the
+			// snapshot of the insert: a row committed by a concurrent transaction while the insert was
+			// waiting on it is skipped by "on conflict do nothing" and is not visible to the select either,
+			// so the balance was read as 0 and the row was left unlocked.
+			_, err := store.db.NewInsert().
+				Model(&accountsVolumes).
+				ModelTableExpr(store.GetPrefixedRelationName("accounts_volumes")).
+				On("conflict do nothing").
+				Exec(ctx)
+			if err != nil {
+				return nil, postgres.ResolveError(err)
+			}
+
+			err = store.db.NewSelect().
 				Model(&accountsVolumes).
 				ModelTableExpr(store.GetPrefixedRelationName("accounts_volumes")).
 				Column("accounts_address", "asset", "input", "output").
